@@ -202,6 +202,7 @@ def builtin (f : String) (args : List Val) : Option Val :=
     (match args with | [.bytes s, .int c] => some (.int (lastIndexByte s (UInt8.ofNat c.toNat))) | _ => none)
   else if f = "append" then appendVal args
   else if f = "append..." then appendAll args
+  else if f = "tuple" then some (.list args)          -- a record of values (call traces)
   else none
 
 /-! ## expressions -/
